@@ -80,7 +80,7 @@ fn mk(v6: bool, ip: &[u8], port: u16) -> RefAddr {
 }
 
 pub fn run(ctx: &mut Ctx) {
-    let quick = ctx.tier == Tier::Quick;
+    let _quick = ctx.tier == Tier::Quick;
     let mut tids: Vec<[u8; 12]> = vec![[0; 12], [0xff; 12], [0x21, 0x12, 0xa4, 0x42, 0x21, 0x12, 0xa4, 0x42, 0x21, 0x12, 0xa4, 0x42]];
     for bit in 0..96 {
         let mut t = [0u8; 12];
@@ -143,6 +143,50 @@ pub fn run(ctx: &mut Ctx) {
             ctx.sample("xor", || wit(&base_addrs[4], t));
         }
     }
+    // ---- special-purpose ranges (RFC 6890): every IPv6 prefix x every embedded special IPv4, and
+    //      addresses whose XOR *image* lands in such a range (a canonicalisation applied before or
+    //      after the XOR would show up here and nowhere in a uniform sample) ----
+    {
+        use crate::gen::vals::{SPECIAL_V4, SPECIAL_V6_PREFIX};
+        let mut cases: Vec<RefAddr> = vec![];
+        for v4 in SPECIAL_V4.iter() {
+            cases.push(mk(false, v4, 3478));
+            for (p, n) in SPECIAL_V6_PREFIX.iter() {
+                let mut ip = [0u8; 16];
+                ip[12..].copy_from_slice(v4);
+                ip[..*n].copy_from_slice(&p[..*n]);
+                cases.push(mk(true, &ip, 32853));
+            }
+        }
+        for last in [0u8, 1] {
+            let mut ip = [0u8; 16];
+            ip[15] = last;
+            cases.push(mk(true, &ip, 1));
+        }
+        for (ci, a) in cases.iter().enumerate() {
+            idx += 1;
+            if !ctx.mine(idx) {
+                continue;
+            }
+            for (ti, t) in tids.iter().enumerate().filter(|(ti, _)| ti % 9 == ci % 9 || *ti < 3) {
+                check_xor(ctx, a, t, ti < 3);
+                // the address whose wire image is `a`: a ^ (cookie || tid)
+                let mut img = a.clone();
+                let key: Vec<u8> = [0x21u8, 0x12, 0xa4, 0x42].iter().chain(t.iter()).copied().collect();
+                let n = if a.v6 { 16 } else { 4 };
+                for k in 0..n {
+                    img.ip[k] ^= key[k];
+                }
+                img.port ^= 0x2112;
+                check_xor(ctx, &img, t, ti < 3);
+                ctx.count_n("special-range-addresses", 2);
+                ctx.distinct(hash64(&[13, ci as u64, ti as u64]));
+            }
+            if ci % 40 == 5 {
+                ctx.sample("special-range", || wit(a, &tids[1]));
+            }
+        }
+    }
     // ---- strided IPv4 sweep and random IPv6 ----
     let n4 = ctx.n(1 << 22, 1 << 26);
     let stride = ((1u64 << 32) / (n4 * ctx.nshards)).max(1);
@@ -168,6 +212,7 @@ pub fn run(ctx: &mut Ctx) {
     }
     ctx.require("ipv4", 100_000);
     ctx.require("ipv6", 100_000);
+    ctx.require("special-range-addresses", 1_000);
 }
 
 pub fn replay(ctx: &mut Ctx, w: &Value) -> Result<(), String> {
